@@ -18,7 +18,16 @@ Oracles on the real code (independent of the model)
   nominal  : result independent of u_traj (None, zeros, random at several scales, previous solution)
   history  : result independent of earlier solves / clock writes / forward calls on the same system object
   purity   : x_init, u_traj, Q, p and the system matrices are not modified
-  mpc-loop : every inner solve starts from the previous inputs, the final solve from the best-cost inputs
+  mpc-loop : the first inner solve starts from THIS call's u_init, every later one from the previous inputs, the final
+             solve from the best-cost inputs; number of iterations = the documented stepper rules replayed on the costs
+  stepper  : ReduceToBason flags vs the documented rules (python replay) on engineered loss sequences
+  batch    : mixed-regime batches (zero / large ill-conditioned / ordinary item): every item vs the same problem alone
+  attributes / aliasing / dtype : public attributes of LQR, MPC, stepper unchanged by a call; tensors returned by earlier
+             calls not modified by later ones; outputs in the dtype of the inputs
+Hardening classes (notes/C14.md): deterministic corpus first (`corpus`, `mpc_corpus`), magnitudes to 1e6..1e8, object
+re-use with every per-call argument varied (x_init, u_traj/u_init value+presence+layout, dt, problem, batch size),
+in-place updates of caller-held tensors (system matrices, x_init, clock tensor), views (non-contiguous, slices of larger
+buffers, transposed storage, expanded Q/p) with the buffers behind them checked bit-for-bit.
 """
 from __future__ import annotations
 
@@ -38,7 +47,9 @@ from . import util_lqr as U
 from .common import Ctx
 
 META = {
-    "rule": "lqr: structured LQ problems — batch 1..3, horizon 1..20, state/input dims 1..6 (all small shapes "
+    "rule": "deterministic corner corpus first (47 fixed cases: every system kind x shape corner with an 18-step history "
+            "containing every kind of operation, extreme magnitudes one block at a time, float32, per-call dt, MPC with 3 "
+            "calls / shared steppers / degenerate budgets); then seeded cases. lqr: structured LQ problems — batch 1..3, horizon 1..20, state/input dims 1..6 (all small shapes "
             "exhaustively + random), LTI (batched / shared matrices), LTV with clock-indexed A_t,B_t (and c1_t), "
             "spectral radius of A from {0,.3,.9,1,1.05,1.3,2,3} capped by rho^T<=1e4, A styles rand/diag/rot/jordan/zero, "
             "B full/zero column/zero at odd times/rank one, cond(Q) in {1,10,1e3,1e6} (log-spaced or clustered "
